@@ -131,9 +131,15 @@ class Case:
                      (False, False): ("base_client", "BaseClient")}[(a, o)]
         return stem + ".py", stem, cls, True
 
+    def plugin_files(self):
+        """modules a configured plugin writes by itself (ExtractOperations: <operations_module_name>.py)"""
+        if any("ExtractOperationsPlugin" in p for p in self.sc.config.get("plugins", [])):
+            return [self.sc.config.get("extract-operations", {}).get("operations_module_name", "operations") + ".py"]
+        return []
+
     def unchecked_names(self):
-        """files generate() writes without looking at them in _validate_unique_file_names"""
-        out = ["__init__.py"]
+        """files written besides the six configured names, operation modules and included files"""
+        out = ["__init__.py"] + self.plugin_files()
         if self.custom_ops:
             out += CUSTOM_FILES[:2]
             if self.schema.query_type is not None:
@@ -172,6 +178,16 @@ class Case:
             out.add("C04-F18-underscore-digit-name")
         if any("ExtractOperationsPlugin" in p for p in self.sc.config.get("plugins", [])):
             out.add("C04-F32-plugin-written-module")
+        if self.custom_ops:
+            import keyword
+
+            from ariadne_codegen.utils import str_to_snake_case
+
+            roots = [t for t in (self.schema.query_type, self.schema.mutation_type) if t is not None]
+            if any(keyword.iskeyword(str_to_snake_case(f)) for t in roots for f in t.fields):
+                out.add("C04-F34-custom-operation-keyword-field")
+        if any(S.nested_composite_depth(f) >= 2 for f in self.frags):
+            out.add("C04-F33-nested-fragment-class-not-rebuilt")
         return out
 
     def replay(self, **extra) -> dict:
@@ -309,6 +325,10 @@ CORPUS = [
     ("ok-custom-operations", "query Q { animal { name } }", CUSTOM),
     ("ok-op-named-like-unwritten-custom-file", "query customFields { s }", {}),
     ("ok-same-class-name-in-two-modules", "query Foo { animal { name } } query FooAnimal { s }", {}),
+    ("F34", "query Q { s }", CUSTOM, "type Query { class: ID! from(x: Int): Int s: String }"),
+    ("F33", "fragment F0 on Person { age } fragment F1 on Person { boss { ...F0 } } "
+            "fragment F3 on Person { boss { boss { ...F1 } } } query Q { people { ...F0 } }", {},
+     "type Person { age: Int boss: Person } type Query { people: [Person] }"),
     # a three-level mixin chain with both ends spread side by side (bases must stay a consistent MRO)
     ("ok-fragment-chain-both-ends", "query Q { dogs { ...Basic ...Whole } } fragment Basic on Dog { id } "
      "fragment Named on Dog { ...Basic name } fragment Whole on Dog { ...Named bark }", {}),
@@ -563,6 +583,9 @@ SYMPTOMS = {
     "C04-F23-abstract-type-condition": lambda k, d: k == "generation-crash" and "ParsingError" in d and "not found in type" in d,
     "C04-F32-plugin-written-module": lambda k, d: (k == "reported-files" and "operations.py" in d)
                                      or (k == "import-failed" and ".operations'" in d) or (k == "modules-listed" and "operations" in d),
+    "C04-F33-nested-fragment-class-not-rebuilt": lambda k, d: k == "incomplete-models" and bool(re.findall(r"'(\w+)\.", d))
+                                                 and all(m in ("fragments", "frags") for m in re.findall(r"'(\w+)\.", d)),
+    "C04-F34-custom-operation-keyword-field": lambda k, d: k == "generation-crash" and "InvalidInput" in d and "def " in d,
     "C04-F18-underscore-digit-name": lambda k, d: (k == "generation-crash" and "InvalidInput" in d) or (k == "import-failed" and "SyntaxError" in d),
 }
 
@@ -641,6 +664,32 @@ def k2(ctx):
     want = [K.EXCEPTIONS_FILE_PATH.name, K.BASE_MODEL_FILE_PATH.name, K.BASE_OPERATION_FILE_PATH.name, "__init__.py"] + CUSTOM_FILES
     if files != want:
         run.broken("K2 bundled file names", f"model {files} vs {want}")
+    # data derived from the SOURCE text on every run (fails closed when the derivation no longer applies)
+    import inspect
+    import ariadne_codegen.client_generators.client as _client
+    import ariadne_codegen.client_generators.package as _package
+    import ariadne_codegen.client_generators.result_types as _result_types
+
+    src = inspect.getsource(_package)
+    literal_files = set(re.findall(r'self\.package_path / "([A-Za-z_]+\.py)"', src))
+    model_unlisted = set(files[3:])          # __init__.py + the four custom operation modules
+    if literal_files != model_unlisted:
+        run.broken("K2 file names written by literal path in package.py",
+                   f"source {sorted(literal_files)} vs model {sorted(model_unlisted)}")
+    check_body = src[src.index("def _validate_unique_file_names"):]
+    check_body = check_body[: check_body.index("\n    def ", 10)]
+    for needle in ("client_file_name", "base_client_file_path.name", "base_model_file_path.name", "enums_module_name",
+                   "input_types_module_name", "fragments_module_name", "_result_types_files", "files_to_include",
+                   '"__init__.py"', "custom_help_field_module_name", '"custom_fields.py"', '"custom_queries.py"',
+                   '"custom_mutations.py"'):
+        if needle not in check_body:
+            run.broken("K2 names checked by _validate_unique_file_names", f"{needle} no longer mentioned in the check")
+    texts = {"anonymous": _package, "duplicate-files": _package, "subscription-sync": _client, "bad-mixin-args": _result_types}
+    for r, mod in texts.items():
+        msrc = inspect.getsource(mod)
+        if not any(t in msrc for t in REFUSAL_TEXT[r][1]) and not (r == "bad-mixin-args" and "Required arguments" in msrc):
+            run.broken("K2 refusal message", f"the message of refusal {r} {REFUSAL_TEXT[r][1]} is not in {mod.__name__}")
+    run.dist("k2", "source-derived tables", 3)
     rng = random.Random(ctx.seed + 4)
     pool = "abAB01_Zz"
     lists = [["".join(rng.choice(pool) for _ in range(rng.randint(0, 5))) for _ in range(rng.randint(0, 9))]
